@@ -39,6 +39,16 @@ Theorem C06_wallet_identity_flat :
   let s := trun fee bal fs in ts_qty s = 0 -> ts_wallet s = bal + sum_pnl fee (ts_closed s).
 Proof. exact wallet_identity_flat. Qed.
 
+(* (iv') several symbols, one wallet: whatever the interleaving of the (regular) fills of the symbols, the wallet has moved by the sum
+   over the symbols of the net PnL of their closed trades and of their open cycles' parts: the net PnL of ALL closed trades equals
+   the change of the wallet balance whenever every position is flat *)
+Theorem C06_multi_symbol_wallet_identity :
+  forall fee bal k (l : list (nat * fill)),
+  let m0 := {| m_wallet := bal; m_syms := repeat (tinit bal) k |} in
+  all_mregular fee m0 l = true ->
+  let m := fold_left (mstep fee) l m0 in m_wallet m = bal + total_contribution fee (m_syms m).
+Proof. exact multi_symbol_session. Qed.
+
 (* (v) REFUTED outside the regular fills: a reduce-only exit larger than the position (full-size stop after a partial
    take-profit) and a flip both end flat with a wallet that differs from start + net PnL of the closed trades; the flip also
    fires open, open, close *)
@@ -64,5 +74,6 @@ Print Assumptions C06_hook_reports_size.
 Print Assumptions C06_trades_are_the_cycles.
 Print Assumptions C06_wallet_identity.
 Print Assumptions C06_wallet_identity_flat.
+Print Assumptions C06_multi_symbol_wallet_identity.
 Print Assumptions C06_oversize_reduce_only_refuted.
 Print Assumptions C06_flip_refuted.
